@@ -47,6 +47,13 @@ func (c Call) Fails() bool {
 	return c.Spec == "err" || c.Spec == "panic" || c.Spec == "cycle" || c.Spec == "mapcycle" || strings.HasPrefix(c.Doc, "!")
 }
 
+func err2s(err error) string {
+	if err == nil {
+		return ""
+	}
+	return err.Error()
+}
+
 var hexAddr = regexp.MustCompile(`0x[0-9a-fA-F]+`)
 
 func maskErr(err error) string {
@@ -77,10 +84,14 @@ type decHandle struct {
 }
 
 func decodeWith(h *decHandle, w *world, c Call, dst reflect.Value) {
+	target := dst.Interface()
+	if c.Spec == "bad-dst" {
+		target = dst.Elem().Interface() // not a pointer: the call must fail before it reads anything
+	}
 	if c.Marker != "" {
-		h.err = h.dec.DecodeContext(w.ctx(c), dst.Interface())
+		h.err = h.dec.DecodeContext(w.ctx(c), target)
 	} else {
-		h.err = h.dec.DecodeWithOption(dst.Interface(), decOpts(c)...)
+		h.err = h.dec.DecodeWithOption(target, decOpts(c)...)
 	}
 }
 
@@ -308,15 +319,17 @@ func (w *world) run(c Call) (o Outcome) {
 		case "unmarshal-noescape":
 			err = gojson.UnmarshalNoEscape(docBytes(), dst.Interface(), decOpts(c)...)
 		case "decoder":
-			key := fmt.Sprint(c.Opts)
+			key := "" // one Decoder for every decoder call of the history, whatever its options
 			h := w.decoders[key]
 			if h == nil {
 				h = &decHandle{buf: &bytes.Buffer{}}
 				h.dec = gojson.NewDecoder(h.buf)
 				w.decoders[key] = h
 			}
-			h.buf.Write(docBytes())
-			h.buf.WriteByte('\n')
+			if c.Spec != "bad-dst" {
+				h.buf.Write(docBytes())
+				h.buf.WriteByte('\n')
+			}
 			func() {
 				defer func() {
 					if r := recover(); r != nil {
@@ -327,8 +340,12 @@ func (w *world) run(c Call) (o Outcome) {
 				decodeWith(h, w, c, dst)
 			}()
 			err = h.err
-			if err != nil {
-				delete(w.decoders, key) // a stream cannot be resynchronised after an error: next call gets a new Decoder
+			topLevelRefusal := (c.Type == "UFail" || c.Type == "TU") && strings.Contains(err2s(err), "refuses")
+			if err != nil && c.Spec != "bad-dst" && !topLevelRefusal {
+				// a stream cannot be resynchronised after a syntax or type error in the middle of a document: the
+				// next call gets a new Decoder.  Calls that fail before reading (invalid destination) or after
+				// the whole top-level value was handed to an unmarshaler leave the stream in step and keep it.
+				delete(w.decoders, key)
 			}
 		case "path-unmarshal":
 			p := w.path(c.Path)
